@@ -57,7 +57,12 @@ class Tokenizer:
             if not self._path:
                 # remember every physical line seen (blank and comment lines, and all the
                 # lines of a multi-line token) so that error reports can quote any span
-                for i, line in enumerate(tok.line.splitlines(keepends=True) or [""]):
+                # (split on "\n" only, like readline: a form feed does not end a line)
+                parts = tok.line.split("\n")
+                lines = [part + "\n" for part in parts[:-1]]
+                if parts[-1] or not lines:
+                    lines.append(parts[-1])
+                for i, line in enumerate(lines):
                     self._lines.setdefault(tok.start[0] + i, line)
             if self.is_blank(tok):
                 continue
@@ -97,7 +102,10 @@ class Tokenizer:
                     if paren_level[-1] == opener:
                         paren_level.pop()
                     else:
-                        raise SyntaxError(f"Unmatched closing paren {tok.string} at {tok.start}")
+                        raise SyntaxError(
+                            f"closing parenthesis '{tok.string}' does not match opening parenthesis '{paren_level[-1]}'",
+                            (self._path or "<unknown>", tok.start[0], tok.start[1] + 1, tok.line, tok.end[0], tok.end[1] + 1),
+                        )
             else:
                 if tok.is_exact_type(")"):
                     self._stack.append(tok)
